@@ -941,7 +941,9 @@ class ModelImpl(*_model_impl_base):
 
         for name, r in self.global_refs.items():
             if name != "__builtins__":
-                assert id(r.interface) in self.refmgr._valid_to_refs
+                # modelx objects are not registered (ReferenceManager.new_ref)
+                assert (isinstance(r.interface, Interface)
+                        or id(r.interface) in self.refmgr._valid_to_refs)
 
         self.refmgr._check_sanity()
         self.spmgr._check_sanity()
